@@ -37,7 +37,7 @@ def flat_reader(d, data, sizes, tag=''):
     from phylib.io.traces import get_ephys_reader
     paths, a = [], 0
     for k, s in enumerate(sizes):
-        p = d / ('w%s_%d.bin' % (tag, k))
+        p = d / ('w%s_%d.bin' % (tag, 9 + k))    # ..._9, ..._10: given order is not name order
         write_flat(p, data[a:a + s])
         paths.append(p)
         a += s
